@@ -188,7 +188,7 @@ def run(chk, replay=None):
             ("q120 products", c10.drive_products, (5, [1, 7, 64] if quick else [1, 7, 64, 1000], 2)),
             ("dense vector-matrix products under both dispatch configurations, misaligned operands", c02.drive_b, (11, 60 if quick else 600)),
             ("polynomial products at the edge of the budget under both dispatch configurations", c01.drive_b,
-             (13, [16, 64, 256], 90 if quick else 600, False))]
+             (13, [16, 32] if quick else [16, 64, 256], 60 if quick else 400, False))]
     res = isolated_many(chk, jobs, timeout=1800, nproc=8)
     specs = ["DispatchTrace", "LimbLoopsTrace", "PointwiseTrace", "PointwiseTrace", "ConvTrace", "Q120Trace", "VmpTrace", "ProductTrace"]
     for d, spec, job in zip(res, specs, jobs):
